@@ -159,7 +159,21 @@ for _s in SPECS.values():
 
 
 def run(tier="quick", seed=0):
-    return run_property(PROPERTY, SPECS, tier, seed)
+    res = run_property(PROPERTY, SPECS, tier, seed)
+    # Grid.match is a composite operation: it changes either grid only through the three contracted setters, so the class
+    # invariant after match follows from the setter contracts (frame obligation on the AST; the values it passes are read
+    # from a grid that satisfies the invariant). A refutation here is a candidate only (not property-level).
+    from pyvc import frame
+    ob = frame.writes_only_through("abtem/core/grid.py", "Grid.match", {"extent", "gpts", "sampling"},
+                                   {"_extent", "_gpts", "_sampling", "_dimensions", "_endpoint", "_lock_extent",
+                                    "_lock_gpts", "_lock_sampling"}, PROPERTY, "writes-only-through-contracted-setters")
+    res["obligations"].append(ob)
+    if ob.get("function"):
+        res["functions"].append(ob["function"])
+    res.setdefault("assumptions", []).append(
+        "Grid.match: tier F (syntactic) shows it writes grid state only through the extent / gpts / sampling setters; that the "
+        "values it passes satisfy the setter preconditions is bounded (bounded/c17.py match rows)")
+    return res
 
 
 def native_replay(case):
